@@ -243,7 +243,7 @@ pub fn run_arena_case(bytes: &[u8], uniform: bool, record_trace: bool) -> ArenaR
     ledger::begin_case(crate::runner::fnv(bytes));
     ledger::set_sentinel(sent);
     tok_reset();
-    let opts = SimOpts { uniform: if uniform { Some(uniform_align(&h, hd.m)) } else { None }, flip_fallible: false, record_trace };
+    let opts = SimOpts { uniform: if uniform { Some(uniform_align(&h, hd.m)) } else { None }, flip_fallible: false, record_trace, ..Default::default() };
     let mut sim = make_sim(hd.m, 1, opts);
     if sim.construct(&hd) {
         for op in ops {
